@@ -12,7 +12,7 @@ COMMON_NOTE = ("Trusted: Coq 8.16.1 kernel; no axioms (Print Assumptions output 
                "both quoting backends built from the working tree; extracted theorem predicates applied to the "
                "implementation's outputs.")
 
-TECH = ("Coq proof (Rocq 8.16.1, kernel-checked, no axioms) over a hand-written Gallina model; tie to the source: tables regenerated from /repo each run, Python-ast-to-Gallina re-translation of _path.py, unsplit_result, make_netloc, encode_url, pre_encoded_url, __str__, __eq__, the ordering operators, 14 accessors, 10 modifiers and join with equality proofs, "
+TECH = ("Coq proof (Rocq 8.16.1, kernel-checked, no axioms) over a hand-written Gallina model; tie to the source: tables regenerated from /repo each run, Python-ast-to-Gallina re-translation of _path.py, unsplit_result, make_netloc, encode_url, pre_encoded_url, __str__, __eq__, the ordering operators, 21 accessors, 13 modifiers, join and split_netloc with equality proofs, "
         "extracted-model differential correspondence against both backends, extracted theorem predicates evaluated on the implementation's outputs")
 
 CHECKS = {
@@ -149,7 +149,9 @@ CHECKS = {
         "text": ('Proved: raw_parts re-compose to raw_path, the suffix is a tail of the name, u / s is u.joinpath(s), with_suffix keeps '
                  'the raw stem byte for byte; the path, name and parent parts of u / s (F28 refuted witness); with_name(n) has name n; '
                  'joinpath(a, c) = joinpath(a).joinpath(c) for every base URL, every pair of texts and either value of encoded whenever no '
-                 "dot-segment removal is triggered; u / 'a/c' = joinpath(a, c). PARTIAL: with_name's parent (equal only up to ==) and "
+                 "dot-segment removal is triggered; u / 'a/c' = joinpath(a, c); raw_parts, raw_name, raw_suffix, with_name, _with_raw_name and "
+                 "with_suffix of yarl/_url.py are re-translated from the source on every run and proved equal to the model, their list "
+                 "indexes never reached on an empty list (C13_source_*). PARTIAL: with_name's parent (equal only up to ==) and "
                  'associativity with dot segments under an authority (differs through F23) are the extracted predicate c13_pred on the '
                  'implementation (33 base shapes x 21 segments, all pairs).'),
         "design_ref": "DESIGN.md section 7 C13",
